@@ -8,7 +8,7 @@ import Continuum.Lemmas.AsOf
 * one write (`upsert`, `closePrev`, `writeVersion`, `writeTable`) keeps the version primary key,
   only adds rows stamped `T`, and keeps `(key, tx, op, vals)` of every row not stamped `T`;
 * the same for the folds `processOp` / `processOps`;
-* `addAssoc` only appends rows stamped `T`;
+* `addAssoc` only adds (and replaces) rows stamped `T`;
 * field-by-field description of `step` on `afterFlush`;
 * the auxiliary facts C02 needs beyond `Inv`: at most one id is newer than the last commit, and an
   id is only created with cause.
@@ -212,7 +212,7 @@ theorem mem_addAssoc {a : List ARow} {T : Nat} {pending : List (Nat × Op × Lis
     rcases ih _ x hx with h | h
     · simp only [List.mem_append, List.mem_singleton] at h
       rcases h with h | rfl
-      · exact Or.inl h
+      · exact Or.inl (List.mem_filter.1 h).1
       · exact Or.inr rfl
     · exact Or.inr h
 
